@@ -187,6 +187,29 @@ def rule_b(ctx):
                     unk[ft] = ast.unparse(resolve_temp(gu.node, s.value)).split('.')[-1]
                 if isinstance(s, ast.Assign) and len(n.body) == 2 and isinstance(n.body[1], ast.Return):
                     unk[ft] = ast.unparse(s.value).split('.')[-1]
+    # ... or a table form: {FrameType.X: <record>.<slot>, ...}.get(frame_type) / [frame_type]
+    for n in walk_local(gu.node):
+        if isinstance(n, ast.Dict) and n.keys and all(k is not None and 'FrameType' in ast.unparse(k) for k in n.keys):
+            used_by_type = any(
+                (isinstance(c, ast.Call) and isinstance(c.func, ast.Attribute) and c.func.attr == 'get' and
+                 c.func.value is n and c.args and ast.unparse(c.args[0]) == gu.params()[1]) or
+                (isinstance(c, ast.Subscript) and c.value is n and ast.unparse(c.slice) == gu.params()[1])
+                for c in walk_local(gu.node))
+            named = None
+            if not used_by_type:
+                # table kept in a local and indexed afterwards
+                for a in walk_local(gu.node):
+                    if isinstance(a, ast.Assign) and a.value is n and isinstance(a.targets[0], ast.Name):
+                        named = a.targets[0].id
+                used_by_type = named is not None and any(
+                    (isinstance(c, ast.Call) and isinstance(c.func, ast.Attribute) and c.func.attr == 'get' and
+                     isinstance(c.func.value, ast.Name) and c.func.value.id == named and c.args and
+                     ast.unparse(c.args[0]) == gu.params()[1]) or
+                    (isinstance(c, ast.Subscript) and isinstance(c.value, ast.Name) and c.value.id == named and
+                     ast.unparse(c.slice) == gu.params()[1]) for c in walk_local(gu.node))
+            if used_by_type:
+                for k, v in zip(n.keys, n.values):
+                    unk.setdefault(ast.unparse(k).split('.')[-1], ast.unparse(v).split('.')[-1])
     for inter, (ft, dec, unkdec, entry) in ROWS.items():
         problems = []
         d = router.lookup(dec)
